@@ -35,21 +35,21 @@ func init() {
 }
 
 type c16Req struct {
-	id       int
-	path     string
-	observe  bool
-	ctx      context.Context
-	cancel   context.CancelFunc
-	fin      chan struct{}
-	arrived  bool
-	inDo     bool
-	ranDo    bool
-	returned bool
-	err      error
-	cancelled bool
-	finished bool
-	doOrder  int
-	gid      uint64
+	id             int
+	path           string
+	observe        bool
+	ctx            context.Context
+	cancel         context.CancelFunc
+	fin            chan struct{}
+	arrived        bool
+	inDo           bool
+	ranDo          bool
+	returned       bool
+	err            error
+	cancelled      bool
+	finished       bool
+	doOrder        int
+	gid            uint64
 	deferredCancel bool // cancelled while parked before its select: the model processes the cancel when the call returns
 	cancelSeen     bool
 }
